@@ -123,9 +123,10 @@ def main():
     for kind in ('select', 'subtype'):
         for name, text, ok in gfam.reference_digraphs(kind, args.tier):
             if ok:
-                cases.append({'kind': 'valid', 'name': 'digraph/' + name, 'text': text})
+                cases.append({'kind': 'valid', 'name': 'digraph/' + name, 'text': text, 'timeout': 15})
             else:
-                cases.append({'kind': 'invalid', 'name': 'reference-digraphs', 'cls': 'circular-%s-graph' % kind, 'detail': name, 'planted': 'zq_a', 'text': text})
+                # (these texts take milliseconds; a tool that does not come back on one of them has hung)
+                cases.append({'kind': 'invalid', 'name': 'reference-digraphs', 'cls': 'circular-%s-graph' % kind, 'detail': name, 'planted': 'zq_a', 'text': text, 'timeout': 15})
     # a circular subtype graph with another entity hanging off it
     for name, text, planted in gfam.cyclic_subtypes():
         cases.append({'kind': 'invalid', 'name': 'cyclic-subtypes', 'cls': 'circular-subtype-graph', 'detail': name, 'planted': planted, 'text': text})
